@@ -335,13 +335,17 @@ def aliases(ctx, rng):
             ctx.evaluation(("array-pointer-alias", first, second))
             ctx.cell("alias-of-array-or-pointer-redeclared")
             try:
-                cs = lib.load(pre + first)
+                cs = lib.load(pre + first + "\ntypedef R RB;")
                 before = cs.resolve("R")
                 try:
                     cs.load(second)
                     accepted = True
                 except ValueError:
                     accepted = False
+                if cs.resolve("RB") is not cs.resolve("R"):
+                    ctx.violation("alias", "redeclaration-separates-an-alias-from-its-target",
+                                  {"first": first, "second": second, "accepted": accepted})
+                    continue
                 if accepted != (second == first):
                     ctx.violation("alias", "redeclaration-of-array-or-pointer-alias-" + ("accepted-for-another-target" if accepted
                                   else "refused-for-the-same-target"), {"first": first, "second": second})
@@ -473,6 +477,34 @@ def keyword_like_fields(ctx):
                               {"text": text, "error": lib.exc_sig(e)})
 
 
+def enum_line_ends(ctx):
+    """Enum members written one per line without commas (an extension the library supports): the same members whatever
+    the line ends are (LF, CRLF, bare CR), with and without comments behind the members."""
+    bodies = [("A", "B", "C"), ("A = 1", "B", "C = B + 1"), ("A = 0x10 // first", "B /* second */", "C")]
+    for flag in (False, True):
+        for body in bodies:
+            ref = None
+            for nl in ("\n", "\r\n", "\r"):
+                text = ("flag" if flag else "enum") + " en : uint16 {" + nl + nl.join("  " + m for m in body) + nl + "};" + nl
+                ctx.evaluation(("enum-line-ends", flag, body, nl))
+                ctx.cell("enum-members-per-line")
+                try:
+                    cs = lib.load(text)
+                    got = [(k, int(v.value)) for k, v in cs.en.__members__.items()]
+                except Exception as e:  # noqa: BLE001
+                    got = lib.exc_sig(e)
+                if ref is None:
+                    ref = got
+                    if not isinstance(got, list) or [k for k, _ in got] != ["A", "B", "C"]:
+                        ctx.violation("enum", "enum-members-per-line-not-recognised", {"text": text, "got": repr(got)})
+                        break
+                elif got != ref:
+                    ctx.violation("enum", "enum-members-depend-on-the-kind-of-line-end",
+                                  {"text": text, "got": repr(got), "want": repr(ref)})
+                else:
+                    ctx.event("enum_line_ends_checked")
+
+
 def string_constants(ctx):
     """A quoted #define value is a string whatever it spells and wherever it stands relative to other constants."""
     import itertools
@@ -501,6 +533,7 @@ def run(ctx):
         aliases(ctx, ctx.rng("aliases"))
     if ctx.shard == 2:
         string_constants(ctx)
+        enum_line_ends(ctx)
     if ctx.shard == 1:
         keyword_like_fields(ctx)
     for i in range(N_CASES[ctx.tier]):
